@@ -113,7 +113,7 @@ def enum_cell(D, n, limit=None):
     return count, len(seen), viol, example
 
 
-def sample_cell(D, n, reps, seed):
+def sample_cell(D, n, reps, seed, ratio=None):
     mod = sys.modules["pybads.poll.poll_mads_2n"]
     f = mod.poll_mads_2n
     rs = np.random.RandomState(seed)
@@ -124,7 +124,9 @@ def sample_cell(D, n, reps, seed):
     seen = set()
     try:
         for _ in range(reps):
-            B = f(D, scale, 2.0 ** (-5) * n, 2.0 ** (-5))
+            # (ratio: a search mesh that is NOT an integer multiple of the poll mesh, as non-integer poll_mesh_multiplier values
+            # produce; the documented mesh ratio is then round(search mesh / poll mesh))
+            B = f(D, scale, 2.0 ** (-5) * (n if ratio is None else ratio), 2.0 ** (-5))
             seen.add(np.round(B * scale).astype(int).tobytes())
             for k in check_matrix(B, D, n, scale):
                 viol.setdefault(k, {"B_times_scale": (B * scale).tolist()})
@@ -143,6 +145,9 @@ def cases(tier, seed):
     for D in (4, 5, 6):
         for n in (1, 2, 8, 16):
             out.append({"kind": "sample", "D": D, "n": n, "reps": 300 if tier == "quick" else 3000, "seed": seed + 17 * D + n})
+    for D in (1, 2, 3, 4):
+        for ratio in (0.75, 1.5, 2.25, 2.5, 3.4, 5.5):
+            out.append({"kind": "sample", "D": D, "n": int(max(1, np.round(ratio))), "ratio": ratio, "reps": 150 if tier == "quick" else 1500, "seed": seed + 31 * D + int(10 * ratio)})
     nrun = C.n_cases(tier, 70, 1500)
     for i in range(nrun):
         rng = gen.rng_for(seed, "C14", i)
@@ -172,7 +177,7 @@ def run_case(case):
         return {"status": "enumerated", "outcomes": count, "distinct_matrices": distinct, "example": example, "cnt": {"C14.enumerated_outcomes": count},
                 "viol": [{"key": k, "detail": dict(v, D=case["D"], n=case["n"], source="scripted")} for k, v in viol.items()]}
     if case["kind"] == "sample":
-        reps, distinct, viol = sample_cell(case["D"], case["n"], case["reps"], case["seed"])
+        reps, distinct, viol = sample_cell(case["D"], case["n"], case["reps"], case["seed"], case.get("ratio"))
         return {"status": "sampled", "outcomes": reps, "distinct_matrices": distinct, "cnt": {"C14.sampled_outcomes": reps},
                 "viol": [{"key": k, "detail": dict(v, D=case["D"], n=case["n"], source="numpy")} for k, v in viol.items()]}
     return C.run_monitored(case, {"C14"})
